@@ -1027,12 +1027,14 @@ def _r11d_into(P, R, rg):
         else:
             R.undecided("R11-d", key, "the condition under which %s fails is not a recognised (original absent, extension present) test" % io.path, loc=io.loc())
     # Some(orig) => (orig, entry.extensions): each original is grouped with the entry's own extensions
-    groups, proper = 0, 0
+    groups, proper, bad = 0, 0, 0
     for n in io.walk():
         if n.get("k") == "Tup" and len(n.get("es", [])) >= 2:
             comps = n["es"]
         elif n.get("k") == "Struct" and "rest" not in n and len(n.get("fields", [])) >= 2 and norm(n.get("adt", "")) != rg.err and not n.get("variant"):
             comps = [f["e"] for f in n["fields"]]
+        elif n.get("k") == "Call" and str(n.get("callee_dk", "")).startswith("Ctor") and len(n["args"]) >= 2:
+            comps = n["args"]       # Variant(original, extensions): an intermediate value carrying the group
         else:
             continue
         at = [pv.atoms(c) for c in comps]
@@ -1043,9 +1045,15 @@ def _r11d_into(P, R, rg):
         groups += 1
         if any(ho[a_] and he[b_] and not ho[b_] for a_ in range(len(comps)) for b_ in range(len(comps)) if a_ != b_):
             proper += 1
+        elif not any(he):
+            bad += 1    # an original grouped with nothing that comes from the entry's extensions
+        # otherwise the components are not separable here (both derive from one intermediate value): no evidence either way
     if not groups:
         R.undecided("R11-d", "into:pairs", "%s does not build (original, extensions) groups in a recognised way" % io.path, loc=io.loc())
     else:
+        if not proper and not bad:
+            R.undecided("R11-d", "into:pairs", "%s groups originals with values whose origin is not separable here" % io.path, loc=io.loc())
+            return
         R.check("R11-d", "into:pairs", proper >= 1, "each original is paired with its own extensions",
                 "%s pairs originals with something else than the entry's `%s`" % (io.path, rg.ext_field), loc=io.loc())
 
